@@ -420,7 +420,19 @@ func (cs *ContractSet) parseSpecFile(file string) error {
 		case "fun":
 			// fun name(S1, S2) R
 			i := strings.Index(rest, "(")
-			j := strings.LastIndex(rest, ")")
+			j := -1
+			depth := 0
+			for k := i; i >= 0 && k < len(rest); k++ {
+				if rest[k] == '(' {
+					depth++
+				} else if rest[k] == ')' {
+					depth--
+					if depth == 0 {
+						j = k
+						break
+					}
+				}
+			}
 			if i < 0 || j < i {
 				return fmt.Errorf("%s:%d: bad fun", file, n)
 			}
